@@ -207,6 +207,7 @@ pub fn teardown(rng: &mut Rng) -> Case {
     let mut cfg = if rng.coin() { GenCfg::inbound(rng) } else { GenCfg::conformant(rng) };
     cfg.steps = rng.urange(0, 50);
     cfg.drain = false;
+    cfg.inbound_multi_ids = cfg.inbound && rng.coin();
     let mut g = Gen::new(cfg, rng);
     g.preamble();
     for _ in 0..g.cfg.steps {
@@ -248,6 +249,7 @@ pub fn cancel(rng: &mut Rng) -> Case {
     cfg.drop_streams = cfg.inbound;
     if cfg.inbound {
         cfg.w_ops[3] += 2;
+        cfg.inbound_multi_ids = rng.coin();
     }
     cfg.receive_max = if rng.chance(2, 3) { Some(rng.range(1, 6) as u16) } else { None };
     cfg.all_reasons = true;
@@ -555,13 +557,18 @@ pub fn systematic_framing(thorough: bool) -> Vec<Case> {
         cases.push(sys_case(&run_prefix, &big_stream, vec![c], false, &run_tail, &config));
     }
     cases.push(sys_case(&run_prefix, &big_stream, vec![700; 40], true, &run_tail, &config));
-    if thorough {
-        let huge = msg(vec![b'q'; 2_100_000], 0, 0);
-        let hs = vec![huge, pingresp.clone()];
-        for c in [1usize, 3, 4, 5, 6, 512, 65_536, 2_099_999, 2_100_013] {
+    // 4-byte remaining length (>= 2 097 152): a few cuts in quick, the full set in thorough
+    {
+        let huge = msg(vec![b'q'; 2_100_000], 1, 77);
+        let edge = msg(vec![b'r'; 2_097_152 - 8], 0, 0); // remaining length exactly 2 097 152
+        let hs = vec![huge, pingresp.clone(), edge, pingresp.clone()];
+        let cuts: &[usize] = if thorough { &[1, 3, 4, 5, 6, 512, 65_536, 2_099_999, 2_100_013, 2_100_020, 4_000_000] } else { &[4, 6, 2_100_013] };
+        for &c in cuts {
             cases.push(sys_case(&run_prefix, &hs, vec![c], false, &run_tail, &config));
         }
-        cases.push(sys_case(&run_prefix, &hs, vec![65_536; 40], false, &run_tail, &config));
+        if thorough {
+            cases.push(sys_case(&run_prefix, &hs, vec![65_536; 70], false, &run_tail, &config));
+        }
     }
     cases
 }
@@ -663,7 +670,28 @@ pub fn maxpacket(rng: &mut Rng) -> Case {
     let r = cfg.receive_max;
     let n_ops = rng.urange(1, 9);
     let mut g = Gen::new(cfg, rng);
-    g.preamble();
+    if g.rng.chance(1, 4) {
+        // the CONNACK that announces M ends an extended authentication exchange
+        let mut connect = g.connect_spec();
+        connect.auth_method = Some("M".into());
+        connect.auth_data = Some(vec![1, 2]);
+        let rounds = g.rng.urange(1, 2);
+        let auths = (0..rounds).map(|i| AuthSpec { reason: Some(0x18), method: Some("M".into()), data: Some(vec![i as u8]), user: vec![] }).collect();
+        g.push(Step::Start { connect, auths });
+        g.settle();
+        for _ in 0..rounds {
+            let props = Props::new().with(pid::AUTH_METHOD, PropVal::Str("M".into())).with(pid::AUTH_DATA, PropVal::Bin(vec![9]));
+            g.broker(BrokerPkt::Auth { reason: 0x18, props, form: Form::Full });
+            g.push(Step::Deliver { n: usize::MAX });
+            g.settle();
+        }
+        let props = g.connack_props();
+        g.broker(BrokerPkt::Connack { session_present: false, reason: 0, props });
+        g.push(Step::Deliver { n: usize::MAX });
+        g.settle();
+    } else {
+        g.preamble();
+    }
     for _ in 0..n_ops {
         let id = g.next_op_id();
         let kind = g.rng.weighted(&[2, 3, 2, 2, 2, 1]);
@@ -901,6 +929,269 @@ pub fn systematic_resume(thorough: bool, seed: u64) -> Vec<Case> {
                 steps.push(Step::Settle { seed: 14 });
                 cases.push(Case { scenario: Scenario { config: config.clone(), steps }, aux: None, profile: "resume/cut-after-every-prefix", gen_hash: None, systematic: true });
             }
+        }
+    }
+    cases
+}
+
+// ---------------------------------------------------------------------------------------
+// Systematic families shared by several properties: enumerate a *parameter* of seeded base
+// scenarios (acknowledgement permutation, cut / drop / cancel / spurious-poll position).
+
+fn sys(config: &Config, steps: Vec<Step>, profile: &'static str) -> Case {
+    Case { scenario: Scenario { config: config.clone(), steps }, aux: None, profile, gen_hash: None, systematic: true }
+}
+
+/// Seeded base histories (recorded step lists) of a given generator configuration.
+fn base_histories(seed: u64, lane: u64, n: usize, mut tune: impl FnMut(&mut GenCfg, &mut Rng)) -> Vec<(Config, Vec<Step>)> {
+    let mut out = Vec::new();
+    for b in 0..n {
+        let mut rng = Rng::derive(seed, lane, b as u64);
+        let mut cfg = GenCfg::conformant(&mut rng);
+        tune(&mut cfg, &mut rng);
+        let mut g = Gen::new(cfg, &mut rng);
+        g.preamble();
+        for _ in 0..g.cfg.steps {
+            g.action();
+        }
+        let config = g.config.clone();
+        let (sc, w) = g.finish();
+        drop(w);
+        let _ = poster::verif::take_probes();
+        out.push((config, sc.steps));
+    }
+    out
+}
+
+fn permutations(n: usize) -> Vec<Vec<usize>> {
+    fn rec(cur: &mut Vec<usize>, used: &mut Vec<bool>, n: usize, out: &mut Vec<Vec<usize>>) {
+        if cur.len() == n {
+            out.push(cur.clone());
+            return;
+        }
+        for i in 0..n {
+            if !used[i] {
+                used[i] = true;
+                cur.push(i);
+                rec(cur, used, n, out);
+                cur.pop();
+                used[i] = false;
+            }
+        }
+    }
+    let mut out = Vec::new();
+    rec(&mut Vec::new(), &mut vec![false; n], n, &mut out);
+    out
+}
+
+/// C05/C06: every acknowledgement order for k <= 5 simultaneously outstanding operations of
+/// several kind mixes, under both fixed select policies, acknowledgements with unique content.
+pub fn systematic_ack_permutations(thorough: bool) -> Vec<Case> {
+    let mut cases = Vec::new();
+    let connect = ConnectSpec { client_id: Some("sim".into()), ..Default::default() };
+    // kinds: 1 publish QoS1, 2 publish QoS2, 3 subscribe, 4 unsubscribe, 5 ping
+    let mixes: Vec<Vec<usize>> = if thorough {
+        vec![vec![1, 1, 1, 1, 1], vec![1, 2, 3, 4, 5], vec![2, 2, 2, 1], vec![5, 5, 5, 3], vec![3, 4, 3, 4, 1], vec![2, 5, 2, 5, 1], vec![1, 2], vec![5, 5, 5, 5, 5]]
+    } else {
+        vec![vec![1, 2, 3, 4], vec![5, 5, 5, 1], vec![2, 2, 1], vec![3, 4, 5, 2]]
+    };
+    for mix in &mixes {
+        for select in [SelectPolicy::PacketFirst, SelectPolicy::MessageFirst] {
+            let config = Config { select, handles: 2, ..Config::default() };
+            let mut prefix = vec![
+                Step::Start { connect: connect.clone(), auths: vec![] },
+                Step::Settle { seed: 0 },
+                Step::Broker { pkt: BrokerPkt::Connack { session_present: false, reason: 0, props: Props::new() }, chunks: Chunks::Whole, hold: false },
+                Step::Settle { seed: 1 },
+            ];
+            for (i, k) in mix.iter().enumerate() {
+                let spec = match k {
+                    1 | 2 => OpSpec::Publish(PublishSpec { qos: Some(*k as u8), topic: Some(format!("t/{i}")), payload: Some(vec![i as u8]), ..Default::default() }),
+                    3 => OpSpec::Subscribe(SubscribeSpec { filters: vec![(format!("f/{i}/a"), SubOptSpec::default())], user: vec![] }),
+                    4 => OpSpec::Unsubscribe(UnsubscribeSpec { filters: vec![format!("u/{i}")], user: vec![] }),
+                    _ => OpSpec::Ping,
+                };
+                prefix.push(Step::Op { id: i, handle: i % 2, spec });
+                prefix.push(Step::Settle { seed: 10 + i as u64 });
+            }
+            for perm in permutations(mix.len()) {
+                let mut steps = prefix.clone();
+                // first acknowledgements in this order; QoS 2 gets PUBREC now and PUBCOMP in a second round
+                let ack = |i: usize, second: bool| -> Option<Step> {
+                    let props = Props::new().with(pid::REASON_STRING, PropVal::Str(format!("rs{i}{}", if second { "b" } else { "" })));
+                    let (kind, reasons) = match (mix[i], second) {
+                        (1, false) => (AckKind::Puback, vec![if i % 2 == 0 { 0 } else { 0x10 }]),
+                        (2, false) => (AckKind::Pubrec, vec![0]),
+                        (2, true) => (AckKind::Pubcomp, vec![if i % 2 == 0 { 0 } else { 0x92 }]),
+                        (3, false) => (AckKind::Suback, vec![1]),
+                        (4, false) => (AckKind::Unsuback, vec![0x11]),
+                        (5, false) => return Some(Step::Broker { pkt: BrokerPkt::Pingresp, chunks: Chunks::Whole, hold: false }),
+                        _ => return None,
+                    };
+                    Some(Step::Broker { pkt: BrokerPkt::Ack { op: i, kind, reasons, props, form: Form::Full }, chunks: Chunks::Whole, hold: false })
+                };
+                for (n, &i) in perm.iter().enumerate() {
+                    if let Some(s) = ack(i, false) {
+                        steps.push(s);
+                    }
+                    // sometimes let the client run between acknowledgements, sometimes batch them
+                    if (n + perm[0]) % 2 == 0 {
+                        steps.push(Step::Settle { seed: 100 + n as u64 });
+                    }
+                }
+                steps.push(Step::Settle { seed: 200 });
+                for &i in perm.iter().rev() {
+                    if let Some(s) = ack(i, true) {
+                        steps.push(s);
+                    }
+                }
+                steps.push(Step::Settle { seed: 201 });
+                cases.push(sys(&config, steps, "conformant-ops/ack-permutations"));
+            }
+        }
+    }
+    cases
+}
+
+fn subscribe_ids(steps: &[Step]) -> Vec<usize> {
+    steps.iter().filter_map(|s| if let Step::Op { id, spec: OpSpec::Subscribe(_), .. } = s { Some(*id) } else { None }).collect()
+}
+
+fn max_op_id(steps: &[Step]) -> usize {
+    steps.iter().filter_map(|s| if let Step::Op { id, .. } = s { Some(*id) } else { None }).max().map(|m| m + 1).unwrap_or(0)
+}
+
+/// C14: the context is dropped after every prefix of seeded base histories.
+pub fn systematic_teardown(thorough: bool, seed: u64) -> Vec<Case> {
+    let mut cases = Vec::new();
+    let bases = base_histories(seed, 0xC14, if thorough { 80 } else { 14 }, |c, r| {
+        c.steps = r.urange(8, 34);
+        c.inbound = r.coin();
+        if c.inbound {
+            c.w_ops[3] += 3;
+        }
+        c.drain = false;
+    });
+    for (config, base) in bases {
+        for k in 4..=base.len() {
+            let mut steps = base[..k].to_vec();
+            steps.push(Step::DropContext);
+            if k % 2 == 0 {
+                steps.push(Step::Settle { seed: 1 });
+            }
+            for s in subscribe_ids(&steps) {
+                steps.push(Step::OpenStream(s));
+            }
+            let next = max_op_id(&steps);
+            steps.push(Step::Op { id: next, handle: 0, spec: OpSpec::Ping });
+            steps.push(Step::Op { id: next + 1, handle: 0, spec: OpSpec::Publish(PublishSpec { qos: Some((k % 3) as u8), topic: Some(format!("t/{}", next + 1)), ..Default::default() }) });
+            steps.push(Step::Settle { seed: 2 });
+            cases.push(sys(&config, steps, "teardown/drop-after-every-prefix"));
+        }
+    }
+    cases
+}
+
+/// C15: every operation of seeded base histories is cancelled at every later position.
+pub fn systematic_cancel(thorough: bool, seed: u64) -> Vec<Case> {
+    let mut cases = Vec::new();
+    let bases = base_histories(seed, 0xC15, if thorough { 60 } else { 10 }, |c, r| {
+        c.steps = r.urange(10, 30);
+        c.max_ops = r.urange(2, 6);
+        c.drain = false;
+        c.all_reasons = true;
+    });
+    for (config, base) in bases {
+        let ops: Vec<(usize, usize)> = base.iter().enumerate().filter_map(|(i, s)| if let Step::Op { id, .. } = s { Some((*id, i)) } else { None }).collect();
+        for (id, at) in ops {
+            for k in (at + 1)..=base.len() {
+                let mut steps = base[..k].to_vec();
+                steps.push(Step::CancelOp(id));
+                steps.extend_from_slice(&base[k..]);
+                steps.push(Step::WriterReady);
+                steps.push(Step::Deliver { n: usize::MAX });
+                steps.push(Step::Settle { seed: 3 });
+                cases.push(sys(&config, steps, "cancel/every-op-at-every-position"));
+            }
+        }
+    }
+    cases
+}
+
+/// C13: every terminating cause after every prefix of seeded base histories.
+pub fn systematic_termination(thorough: bool, seed: u64) -> Vec<Case> {
+    let mut cases = Vec::new();
+    let bases = base_histories(seed, 0xC13, if thorough { 40 } else { 8 }, |c, r| {
+        c.steps = r.urange(6, 26);
+        c.drain = false;
+        c.writer_tweaks = false;
+    });
+    for (config, base) in bases {
+        for k in 4..=base.len() {
+            for cause in 0..7 {
+                let mut steps = base[..k].to_vec();
+                let next = max_op_id(&steps);
+                match cause {
+                    0 => steps.push(Step::Op { id: next, handle: 0, spec: OpSpec::Disconnect(DisconnectSpec::default()) }),
+                    1 => steps.push(Step::Broker { pkt: BrokerPkt::Disconnect { reason: 0, props: Props::new(), form: Form::Shortest }, chunks: Chunks::Whole, hold: false }),
+                    2 => steps.push(Step::Broker {
+                        pkt: BrokerPkt::Disconnect { reason: 0x8b, props: Props::new().with(pid::REASON_STRING, PropVal::Str("bye".into())), form: Form::Full },
+                        chunks: Chunks::Each(2),
+                        hold: false,
+                    }),
+                    3 => steps.push(Step::Fault(FaultKind::ReadEof)),
+                    4 => steps.push(Step::Fault(FaultKind::ReadErr)),
+                    5 => {
+                        let ids: Vec<usize> = steps.iter().filter_map(|s| if let Step::Op { id, .. } = s { Some(*id) } else { None }).collect();
+                        for id in ids {
+                            steps.push(Step::CancelOp(id));
+                        }
+                        for h in 0..config.handles.max(1) {
+                            steps.push(Step::DropHandle(h));
+                        }
+                    }
+                    _ => {
+                        steps.push(Step::Fault(FaultKind::WriteErr { after: k % 5 }));
+                        steps.push(Step::Op { id: next, handle: 0, spec: OpSpec::Ping });
+                        steps.push(Step::Op { id: next + 1, handle: 0, spec: OpSpec::Ping });
+                        steps.push(Step::Op { id: next + 2, handle: 0, spec: OpSpec::Ping });
+                    }
+                }
+                steps.push(Step::WriterReady);
+                steps.push(Step::Deliver { n: usize::MAX });
+                steps.push(Step::Settle { seed: 4 });
+                cases.push(sys(&config, steps, "termination/cause-after-every-prefix"));
+            }
+        }
+    }
+    cases
+}
+
+/// C16: a spurious poll of each idle task inserted at every position of seeded base
+/// histories (the judge compares against the wake-only execution of the base).
+pub fn systematic_spurious(thorough: bool, seed: u64) -> Vec<Case> {
+    let mut cases = Vec::new();
+    let bases = base_histories(seed, 0xC16, if thorough { 60 } else { 10 }, |c, r| {
+        c.steps = r.urange(8, 30);
+        c.inbound = r.coin();
+        if c.inbound {
+            c.w_ops[3] += 2;
+        }
+        c.gates = false;
+        c.read_style = *r.pick(&[ReadStyle::Whole, ReadStyle::Bytes1, ReadStyle::Small]);
+    });
+    for (config, mut base) in bases {
+        base.push(Step::WriterReady);
+        base.push(Step::Deliver { n: usize::MAX });
+        base.push(Step::Settle { seed: 5 });
+        for k in 3..base.len() {
+            let mut sp = base.clone();
+            for pick in (0..3).rev() {
+                sp.insert(k, Step::Spurious { pick });
+            }
+            let mut c = sys(&config, base.clone(), "wake-base/spurious-poll-at-every-position");
+            c.aux = Some(Scenario { config: config.clone(), steps: sp });
+            cases.push(c);
         }
     }
     cases
